@@ -58,6 +58,35 @@ pub fn gen(rng: &mut Rng) -> Prog {
     // next explicit origin in .dseg / .eseg (far enough apart that no piece reaches the next)
     let mut org_next: [i64; 2] = [0x200, 0x100];
     let mut well_known: Vec<&str> = vec!["xl", "xh", "yl", "yh", "zl", "zh"];
+    // one program in three begins with symbol lines that read the location counter, then moves on with `.org`:
+    // a `.set` takes the position its line stands at, whatever origin follows
+    if rng.chance(1, 3) {
+        let name = names.fresh("sv", rng);
+        syms.push(Sym { name: name.clone(), kind: "set", def_nodes: vec![nodes.len()], used: false });
+        nodes.push(Node::Set(cs(&name, rng), if rng.chance(1, 2) { E::Pc } else { E::bin(Bin::Add, E::Pc, E::Lit(rng.range(1, 9), 0)) }));
+        set_live.push(syms.len() - 1);
+        exprsyms.push(syms.len() - 1);
+        if rng.chance(1, 2) {
+            let a = names.fresh("al", rng);
+            let reg = rng.below(32) as u8;
+            aliases.push((a.clone(), reg, nodes.len(), None));
+            live_alias.push(aliases.len() - 1);
+            syms.push(Sym { name: a.clone(), kind: "def", def_nodes: vec![nodes.len()], used: false });
+            nodes.push(Node::Def(cs(&a, rng), reg));
+        }
+        nodes.push(Node::Org(E::Lit(rng.range(2, 40), 1)));
+        // and once more behind a first instruction: `.org A` / symbol lines / `.org B`
+        if rng.chance(1, 2) {
+            nodes.push(Node::instr("nop", vec![]));
+            nodes.push(Node::Org(E::Lit(0x50, 1)));
+            let name = names.fresh("sv", rng);
+            syms.push(Sym { name: name.clone(), kind: "set", def_nodes: vec![nodes.len()], used: false });
+            nodes.push(Node::Set(cs(&name, rng), E::Pc));
+            set_live.push(syms.len() - 1);
+            exprsyms.push(syms.len() - 1);
+            nodes.push(Node::Org(E::Lit(0x60 + rng.range(0, 8), 1)));
+        }
+    }
     for _ in 0..n_steps {
         match rng.below(17) {
             16 => {
@@ -491,6 +520,11 @@ pub fn check_program(ctx: &Ctx, p: &Prog, rng: &mut Rng, all_mutants: bool) {
         m.push(Node::Seg(Seg::Code));
         m.push(Node::instr("rjmp", vec![Opnd::Expr(E::Sym(pc.into()))]));
         check_must_fail(ctx, &m, "equ-named-pc", "an .equ named pc");
+        let mut m = p.nodes.clone();
+        m.insert(1 + m.iter().take(3).position(|n| matches!(n, Node::Device(_))).map(|i| i + 1).unwrap_or(0), Node::Define(pc.into()));
+        m.push(Node::Seg(Seg::Code));
+        m.push(Node::instr("rjmp", vec![Opnd::Expr(E::Sym(pc.into()))]));
+        check_must_fail(ctx, &m, "define-named-pc", "a #define named pc");
         let r = rng.below(32);
         let mut m = p.nodes.clone();
         m.push(Node::Seg(Seg::Code));
